@@ -240,6 +240,35 @@ def _sites():
     s_equal_edges_same_comment_text = _equal_edges('comment')
     del _equal_edges
 
+    # `model.attr += batch` - the statement: an in-place extend, then the result assigned back through the property.  Accepted on
+    # this tree; were the assignment refused, the refusal would come AFTER the extend
+    def _iadd(which):
+        def site(f, g):
+            if which != 'file':
+                yield None
+            if which == 'tags':
+                f.raw_directives[1].raw_tags_links += [models.Tag.from_value('new')]
+            elif which == 'postings':
+                f.raw_directives[1].raw_postings_with_comments += [models.Posting.from_value('Assets:New', None, None, indent='    ')]
+            elif which == 'currencies':
+                f.raw_directives[0].raw_currencies += [models.Currency.from_value('NEW')]
+            elif which == 'view-tags':
+                f.raw_directives[1].tags += ['new']
+            elif which == 'view-postings':
+                f.raw_directives[1].postings += [models.Posting.from_value('Assets:New', None, None, indent='    ')]
+            else:
+                h = edits.P().parse('2000-01-01 open Assets:Z\n2000-01-02 close Assets:Z', models.File)   # no final newline
+                yield h
+                h.raw_directives_with_comments += [models.Close.from_value(datetime.date(2001, 1, 1), 'Assets:Q')]
+        return site
+    s_iadd_raw_tags = _iadd('tags')
+    s_iadd_raw_postings = _iadd('postings')
+    s_iadd_raw_currencies = _iadd('currencies')
+    s_iadd_view_tags = _iadd('view-tags')
+    s_iadd_view_postings = _iadd('view-postings')
+    s_iadd_file_directives_no_final_newline = _iadd('file')
+    del _iadd
+
     def s_directive_other_doc(f, g):
         f.raw_directives.append(g.raw_directives[0])
     return {k[2:]: v for k, v in locals().items() if k.startswith('s_')}
@@ -269,7 +298,7 @@ def _run_site(name, fn):
             fn(f, g)
     except AssertionError as e:
         return ('refused', 'changed', f'probe:{name}:refused-changed-text', str(e)[:300])
-    except (ValueError, IndexError, KeyError, TypeError) as e:
+    except (ValueError, IndexError, KeyError, TypeError, NotImplementedError) as e:
         post = (intro.pr(f), intro.struct(f), intro.pr(g), intro.struct(g))
         tag = edits.exc_tag(e)
         if post[0] != pre[0] or post[2] != pre[2]:
